@@ -161,4 +161,21 @@ theorem json_surrogate_pair (c : Nat) (h1 : 0x10000 ≤ c) (h2 : c < 0x110000) (
 
 example : List.drop 1 (escapeU 0x20000) = [0x75, 100, 56, 52, 48, 0x5C, 0x75, 100, 99, 48, 48] := by decide
 
+/-- **Chunked hex decoder = simple hex decoder**: `decode_hex_to_writer` decodes through a
+`J_BIN_BUF` = 64-byte scratch buffer that it flushes whenever it is full; for every input
+(valid or not, any length) the writer receives exactly what the one-pass decoder produces —
+nothing is dropped or duplicated at the 64-byte boundaries. -/
+theorem json_hex_chunked_refines (s : List Nat) : decodeHexToWriter s = decodeHexSimple s :=
+  decodeHexToWriter_eq s
+
+/-- **Binary column round trip** (`BinaryEncoder::encode` → `decode_hex_to_writer`): every
+byte string of every length, written as lower-case hex, decodes to itself. -/
+theorem json_binary_roundtrip (bs : List Nat) (h : ∀ b ∈ bs, b < 256) :
+    decodeHexToWriter (encodeHex bs) = some bs := by
+  rw [decodeHexToWriter_eq]; exact decodeHexSimple_encodeHex bs h
+
+/-- non-vacuity: 65 bytes cross the scratch-buffer boundary -/
+example : decodeHexToWriter (encodeHex ((List.range 65).map (· + 100))) = some ((List.range 65).map (· + 100)) := by
+  decide
+
 end ArrowModel.C17.Json
